@@ -97,6 +97,8 @@ structure Rel (seen : List Nat) (y : State) (m : MState) : Prop where
   fan : RelFan (fun k => (y.srv.ks k).inflight) y.slots m.fans
   cache : RelCache (curVersion y) y.slots m.slots
   seen : RelSeen seen y.srv
+  /-- a fan-out is in progress only for a kind whose capability is not switched off -/
+  gate : ∀ k, (y.srv.ks k).inflight ≠ [] → gateSend y.srv k = true
 
 /-! ### the run -/
 
